@@ -80,8 +80,19 @@ func NewReadOnlyFS(bundle *core.Bundle, opts ...Option) (*ReadOnlyFS, error) {
 		fs.m = fs.EnsureMetrics("fuse", &M{}).(*M)
 	}
 
+	fs.l = fs.l.With(zap.String("repo", bundle.RepoID), zap.String("bundle", bundle.BundleID))
+
 	if fs.streamed {
-		// prepare the content-addressable backend for this bundle
+		// extract the meta information needed: data will be fetched as needed
+		err := core.PublishMetadata(context.Background(), fs.bundle)
+		if err != nil {
+			fs.l.Error("Failed to publish bundle metadata", zap.String("id", bundle.BundleID), zap.Error(err))
+			return nil, err
+		}
+
+		// prepare the content-addressable backend for this bundle.
+		// NOTE: this must come after the bundle descriptor has been retrieved, since the leaf size
+		// and the metadata version are properties of the bundle
 		cafs, err := cafs.New(
 			cafs.LeafSize(bundle.BundleDescriptor.LeafSize),
 			cafs.LeafTruncation(bundle.BundleDescriptor.Version < 1),
@@ -96,17 +107,6 @@ func NewReadOnlyFS(bundle *core.Bundle, opts ...Option) (*ReadOnlyFS, error) {
 			return nil, err
 		}
 		fs.cafs = cafs
-	}
-
-	fs.l = fs.l.With(zap.String("repo", bundle.RepoID), zap.String("bundle", bundle.BundleID))
-
-	if fs.streamed {
-		// extract the meta information needed: data will be fetched as needed
-		err := core.PublishMetadata(context.Background(), fs.bundle)
-		if err != nil {
-			fs.l.Error("Failed to publish bundle metadata", zap.String("id", bundle.BundleID), zap.Error(err))
-			return nil, err
-		}
 	} else {
 		// download the bundle entirely to staging area
 		err := core.Publish(context.Background(), fs.bundle)
